@@ -7,7 +7,8 @@ From QV Require Import Lib.Corr Sys.Trace.
 Import ListNotations.
 Open Scope Z_scope.
 
-Record st := { mode : Z; fresh : list Z (* client idx whose next opens must restart numbering *);
+Record st := { mode : Z; no_redo : bool; rejected : list Z;
+               fresh : list Z (* client idx whose next opens must restart numbering *);
                seen_bi : list Z; seen_uni : list Z }.
 
 Definition rm (x : Z) (l : list Z) : list Z := filter (fun y => negb (y =? x)) l.
@@ -24,7 +25,7 @@ Definition step (s : st) (r : list Z) : option st :=
       else Some s
     else Some s
   else if (tag r =? 13) && (fld r 2 =? 7) then
-    Some {| mode := mode s; fresh := fld r 3 :: fresh s; seen_bi := rm (fld r 3) (seen_bi s);
+    Some {| mode := mode s; no_redo := no_redo s; rejected := fld r 3 :: rejected s; fresh := fld r 3 :: fresh s; seen_bi := rm (fld r 3) (seen_bi s);
             seen_uni := rm (fld r 3) (seen_uni s) |}
   else if (tag r =? 3) && (fld r 4 =? 1) && (rep r =? 0) then
     (* open(sid | -1, dir): after a rejection the first stream of each direction is stream 0 *)
@@ -35,14 +36,19 @@ Definition step (s : st) (r : list Z) : option st :=
     else if mem idx (fresh s) then
       if dir =? 0 then
         if mem idx (seen_bi s) then Some s
-        else if sid =? 0 then Some {| mode := mode s; fresh := fresh s; seen_bi := idx :: seen_bi s; seen_uni := seen_uni s |}
+        else if sid =? 0 then Some {| mode := mode s; no_redo := no_redo s; rejected := rejected s; fresh := fresh s; seen_bi := idx :: seen_bi s; seen_uni := seen_uni s |}
         else None
       else
         if mem idx (seen_uni s) then Some s
-        else if sid =? 2 then Some {| mode := mode s; fresh := fresh s; seen_bi := seen_bi s; seen_uni := idx :: seen_uni s |}
+        else if sid =? 2 then Some {| mode := mode s; no_redo := no_redo s; rejected := rejected s; fresh := fresh s; seen_bi := seen_bi s; seen_uni := idx :: seen_uni s |}
         else None
     else Some s
+  else if no_redo s && (rep r =? 1) && mem (ridx r) (rejected s)
+          && (((tag r =? 4) && (fld r 4 =? 4)) || ((tag r =? 3) && (fld r 4 =? 12))) then
+    (* early data was rejected and the client did nothing afterwards: nothing of the early
+       attempt (not even a queued STOP_SENDING or RESET_STREAM) may open a stream at the server *)
+    None
   else Some s.
 
 Definition monitor (i : ops) (o : outs) : option Z :=
-  snd (run_from step 0 {| mode := param i 44 0; fresh := []; seen_bi := []; seen_uni := [] |} o).
+  snd (run_from step 0 {| mode := param i 44 0; no_redo := param i 80 0 =? 1; rejected := []; fresh := []; seen_bi := []; seen_uni := [] |} o).
